@@ -308,3 +308,13 @@ def run_case(ctx, index):
         ctx.count('cli_runs')
         changed = True
     ctx.case(desc, bool(changed and has_zero_in_vec))
+
+
+def stress(ctx):
+    from vm.checks import _stress
+    _stress.stress_transform(ctx, ctx.rng('stress'))
+
+
+def san_indices(tier):
+    return [i for i in range(0, 600 if tier == 'quick' else 8000)
+            if i % 10 != 0]
